@@ -35,7 +35,8 @@ def akai_subject(variant):
 
 def roland_subject():
     samples = {0: {"name": "KICK", "chain": [3, 2], "points": [2, 2, 5000, 2, 100], "mode": 2, "seq": 1},
-               1: {"name": "TOM", "chain": [4], "points": [0, 0, 4607, 0, 100], "mode": 5, "seq": 2},
+               # (its audio begins in the SECOND cluster of its chain: leading-cluster offset 1)
+               1: {"name": "TOM", "chain": [6, 4], "cluster_top": 1, "points": [0, 0, 4607, 0, 100], "mode": 5, "seq": 2},
                2: {"name": "TON", "chain": [5], "points": [1, 1, 900, 1, 1200], "mode": 1, "seq": 3}}
     model = {"volumes": [{"name": "VOL", "perfs": [0]}], "performances": {0: {"name": "PERF", "patches": [0]}},
              "patches": {0: {"name": "PATCH", "partials": [0]}}, "partials": {0: {"name": "PART", "samples": [0, 1, 2]}},
@@ -222,7 +223,7 @@ class Check(CheckBase):
     title = "A damaged directory entry affects only that entry"
     rule = ("AKAI volumes with 3, 4 and 5 files (fragmented sample, L/R pair, program, a file filling its last sector): every "
             "entry x each of its 24 bytes x value menu (15 values quick / all 256 thorough); Roland performance with 3 samples "
-            "(permuted chain, reverse mode, release-end mode): every byte of each sample's 32-byte directory record and 48-byte "
+            "(permuted chain, reverse mode behind a leading-cluster offset, release-end mode): every byte of each sample's 32-byte directory record and 48-byte "
             "parameter record x the same menus (thorough: all 256 for sample 1, menu for the others); thorough also all byte "
             "pairs inside the multi-byte fields (size, start / fat_entry, start, sustain end, release end, cluster_top) over the "
             "menu; whole-field boundary values of the start / size / fat_entry / cluster_top / loop-point fields (table length +-1, "
